@@ -1,7 +1,9 @@
 package isaacblock
 
 import (
+	"bytes"
 	"encoding/json"
+	"sort"
 
 	"github.com/spikeekips/mitum/base"
 	"github.com/spikeekips/mitum/util"
@@ -10,30 +12,71 @@ import (
 )
 
 type blockMapJSONMarshaler struct {
-	Manifest base.Manifest                            `json:"manifest"`
-	Items    map[base.BlockItemType]base.BlockMapItem `json:"items"`
+	Manifest base.Manifest   `json:"manifest"`
+	Items    json.RawMessage `json:"items"`
 	base.BaseNodeSignJSONMarshaler
 	hint.BaseHinter
 }
 
 func (m BlockMap) MarshalJSON() ([]byte, error) {
-	items := map[base.BlockItemType]base.BlockMapItem{}
-	defer clear(items)
+	var items []base.BlockMapItem
 
 	m.items.Traverse(func(_ base.BlockItemType, v base.BlockMapItem) bool {
 		if v != nil {
-			items[v.Type()] = v
+			items = append(items, v)
 		}
 
 		return true
 	})
 
+	bitems, err := marshalBlockMapItemsJSON(items)
+	if err != nil {
+		return nil, err
+	}
+
 	return util.MarshalJSON(blockMapJSONMarshaler{
 		BaseHinter:                m.BaseHinter,
 		BaseNodeSignJSONMarshaler: m.BaseNodeSign.JSONMarshaler(),
 		Manifest:                  m.manifest,
-		Items:                     items,
+		Items:                     bitems,
 	})
+}
+
+// marshalBlockMapItemsJSON marshals items to the json object, keyed by the
+// item type. The keys are ordered; same BlockMap is always marshaled to the
+// same bytes.
+func marshalBlockMapItemsJSON(items []base.BlockMapItem) ([]byte, error) {
+	sort.Slice(items, func(i, j int) bool {
+		return items[i].Type() < items[j].Type()
+	})
+
+	var b bytes.Buffer
+
+	_ = b.WriteByte('{')
+
+	for i := range items {
+		if i > 0 {
+			_ = b.WriteByte(',')
+		}
+
+		k, err := util.MarshalJSON(items[i].Type())
+		if err != nil {
+			return nil, err
+		}
+
+		v, err := util.MarshalJSON(items[i])
+		if err != nil {
+			return nil, err
+		}
+
+		_, _ = b.Write(k)
+		_ = b.WriteByte(':')
+		_, _ = b.Write(v)
+	}
+
+	_ = b.WriteByte('}')
+
+	return b.Bytes(), nil
 }
 
 type blockMapJSONUnmarshaler struct {
